@@ -336,25 +336,66 @@ Proof.
   - intros k Hk. rewrite Forall_forall in Hne. apply Hne. eapply Permutation_in; eauto.
 Qed.
 
-(* the state just before the final SortBlocks *)
-Theorem set_require_separate_indirect_pre_sort f l f' :
-  distinct_paths (map req_path l) = true -> Coherent f -> BlockIdsOk (fsyn f) -> RequireSettable f ->
+(* the intermediate states of SetRequireSeparateIndirect, named *)
+Definition sri_need (l : list req) : list (str * (str * bool)) :=
+  fold_left (fun m (q : req) => let '(p, v, ind) := q in amap_set p (v, ind) m) l [].
+Definition sri_scan_of (s0 : syntax) : sri_scan := sri_scan_loop s0 0 (stmts s0) (mkScan (-1) (-1) (-1) O []).
+Definition one_flat_uncommented (s0 : syntax) : bool :=
+  Nat.eqb (sc_count (sri_scan_of s0)) 1
+  && match nth_error (stmts s0) (Z.to_nat (sc_require (sri_scan_of s0))) with
+     | Some st => negb (has_comments (stmt_coms s0 st))
+     | None => false
+     end.
+
+Definition sri_steps (f : file) (l : list req) (f' : file)
+           (s1 : syntax) (dbid : nat) (di ii : Z) (s2 : syntax) (ibid : nat)
+           (s3 : syntax) (rs : list e_require) (have : list str) (s4 : syntax) (rs' : list e_require) : Prop :=
+  let s0 := fsyn f in
+  let sc := sri_scan_of s0 in
+  (if sc_direct sc <? 0 then
+     let '(di, ii) := if 0 <=? sc_indirect sc then (sc_indirect sc, sc_indirect sc + 1)
+                      else if 0 <=? sc_require sc then (sc_require sc + 1, sc_indirect sc)
+                      else (Z.of_nat (length (stmts s0)), sc_indirect sc) in
+     let (s1, bid) := insert_block s0 di in Some (s1, bid, di, ii)
+   else do (s1, bid) <- ensure_block s0 (sc_direct sc); Some (s1, bid, sc_direct sc, sc_indirect sc))
+  = Some (s1, dbid, di, ii) /\
+  (if ii <? 0 then Some (insert_block s1 (di + 1)) else ensure_block s1 ii) = Some (s2, ibid) /\
+  sri_loop s2 (sri_need l) [] (one_flat_uncommented s0) (sc_l2b sc) dbid ibid (f_require f) = Some (s3, rs, have) /\
+  fold_left (sri_add_new dbid ibid have) (sri_need l) (s3, rs) = (s4, rs') /\
+  f' = sort_blocks (with_require (with_syn f s4) rs').
+
+Lemma sri_steps_exist f l f' :
   set_require_separate_indirect f l = Some f' ->
-  exists g, f' = sort_blocks g /\ Coherent g /\ BlockIdsOk (fsyn g).
+  exists s1 dbid di ii s2 ibid s3 rs have s4 rs', sri_steps f l f' s1 dbid di ii s2 ibid s3 rs have s4 rs'.
 Proof.
-  intros Hd Hc Hbi Hset H. apply distinct_paths_spec in Hd. destruct Hd as [Hnd Hne].
-  unfold set_require_separate_indirect in H.
-  destruct (need_of_requests l Hnd Hne) as [_ [Hnd' Hne']].
-  set (need := fold_left (fun m (q : req) => let '(p, v, ind) := q in amap_set p (v, ind) m) l []) in *.
+  intros H. unfold set_require_separate_indirect in H.
+  fold (sri_need l) in H. fold (sri_scan_of (fsyn f)) in H. fold (one_flat_uncommented (fsyn f)) in H.
+  match type of H with context [if sc_direct ?sc <? 0 then ?A else ?B] =>
+    destruct (if sc_direct sc <? 0 then A else B) as [[[[s1 dbid] di] ii]|] eqn:E1 end; [|discriminate].
+  destruct (if ii <? 0 then Some (insert_block s1 (di + 1)) else ensure_block s1 ii) as [[s2 ibid]|] eqn:E2; [|discriminate].
+  destruct (sri_loop s2 _ _ _ _ dbid ibid (f_require f)) as [[[s3 rs] have]|] eqn:E3; [|discriminate].
+  destruct (fold_left (sri_add_new dbid ibid have) (sri_need l) (s3, rs)) as [s4 rs'] eqn:E4.
+  injection H as <-.
+  exists s1, dbid, di, ii, s2, ibid, s3, rs, have, s4, rs'. unfold sri_steps. auto.
+Qed.
+
+(* the state just before the final SortBlocks *)
+Theorem sri_pre_sort_explicit f l f' s1 dbid di ii s2 ibid s3 rs have s4 rs' :
+  distinct_paths (map req_path l) = true -> Coherent f -> BlockIdsOk (fsyn f) -> RequireSettable f ->
+  sri_steps f l f' s1 dbid di ii s2 ibid s3 rs have s4 rs' ->
+  Coherent (with_require (with_syn f s4) rs') /\ BlockIdsOk s4 /\
+  BlockIdsOk s2 /\ has_req_block (stmts s2) dbid /\ has_req_block (stmts s2) ibid.
+Proof.
+  intros Hd Hc Hbi Hset [E1 [E2 [E3 [E4 _]]]]. apply distinct_paths_spec in Hd. destruct Hd as [Hnd Hne].
+  destruct (need_of_requests l Hnd Hne) as [_ [Hnd' Hne']]. fold (sri_need l) in Hnd', Hne'.
+  set (need := sri_need l) in *.
   set (s0 := fsyn f) in *.
-  set (sc := sri_scan_loop s0 0 (stmts s0) (mkScan (-1) (-1) (-1) O [])) in *.
+  set (sc := sri_scan_of s0) in *.
   destruct (sri_scan_ok s0 (stmts s0) 0 (mkScan (-1) (-1) (-1) O []) (Z.le_refl 0) eq_refl) as [Sd [Si Sr]];
-    try (left; cbn; lia). fold sc in Sd, Si, Sr.
+    try (left; cbn; lia). fold (sri_scan_of s0) in Sd, Si, Sr. fold sc in Sd, Si, Sr.
   apply coherent_S in Hc. fold s0 in Hc. set (es := entries f) in *.
   pose proof Hc as [Hsy0 _].
   (* the direct block *)
-  match type of H with context [if sc_direct sc <? 0 then ?A else ?B] =>
-    destruct (if sc_direct sc <? 0 then A else B) as [[[[s1 dbid] di] ii]|] eqn:E1 end; [|discriminate].
   assert (K1 : CoherentS s1 es /\ BlockIdsOk s1 /\ has_req_block (stmts s1) dbid /\ idx_ok s1 ii
                /\ heap_len s1 = heap_len s0 /\ (forall j, hl_com (sget s1 j) = hl_com (sget s0 j))).
   { destruct (sc_direct sc <? 0) eqn:Ed.
@@ -385,7 +426,6 @@ Proof.
       destruct Si as [Si|Si]; [left; exact Si | right; apply A6; exact Si]. }
   destruct K1 as [Hc1 [Hbi1 [Hdb1 [Hii [Hlen1 Hcom1]]]]]. pose proof Hc1 as [Hsy1 _].
   (* the indirect block *)
-  destruct (if ii <? 0 then Some (insert_block s1 (di + 1)) else ensure_block s1 ii) as [[s2 ibid]|] eqn:E2; [|discriminate].
   assert (K2 : CoherentS s2 es /\ BlockIdsOk s2 /\ has_req_block (stmts s2) dbid /\ has_req_block (stmts s2) ibid
                /\ (forall j, hl_com (sget s2 j) = hl_com (sget s0 j))).
   { destruct (ii <? 0) eqn:Ei.
@@ -400,22 +440,29 @@ Proof.
       intros j. rewrite A8. apply Hcom1. }
   destruct K2 as [Hc2 [Hbi2 [Hdb2 [Hib2 Hcom2]]]].
   (* the loop over the existing requirements *)
-  destruct (sri_loop s2 need [] _ (sc_l2b sc) dbid ibid (f_require f)) as [[[s3 rs] have]|] eqn:E3; [|discriminate].
   unfold es in Hc2. rewrite entries_require in Hc2.
-  match type of E3 with sri_loop _ _ _ ?of ?l2 _ _ _ = _ =>
-    destruct (sri_loop_S need of l2 dbid ibid (post_require f) (f_require f) (pre_require f) s2 [] s3 rs have Hc2
-                (bi_nodup _ Hbi2) Hdb2 Hib2) as [Hc3 [Hb3 [Hn3 [Hdb3 Hib3]]]]; [ | exact Hne' | exact E3 |] end.
+  destruct (sri_loop_S need (one_flat_uncommented s0) (sc_l2b sc) dbid ibid (post_require f) (f_require f) (pre_require f) s2 [] s3 rs have Hc2
+              (bi_nodup _ Hbi2) Hdb2 Hib2) as [Hc3 [Hb3 [Hn3 [Hdb3 Hib3]]]]; [ | exact Hne' | exact E3 |].
   { intros r i Hin Hs Hl. eapply settable_com; [symmetry; apply Hcom2|]. apply (Hset r i Hin Hs Hl). }
   (* the new requirements *)
-  destruct (fold_left (sri_add_new dbid ibid have) need (s3, rs)) as [s4 rs'] eqn:E4.
   destruct (sri_add_new_S dbid ibid have (post_require f) need (pre_require f) s3 rs s4 rs' Hc3) as [Hc4 [Hb4 Hn4]];
     [rewrite Hb3; exact (bi_nodup _ Hbi2) | exact Hdb3 | exact Hib3 | exact Hne' | exact E4 |].
-  injection H as <-.
-  exists (with_require (with_syn f s4) rs'). split; [reflexivity|]. split.
+  split; [|split; [|split; [exact Hbi2 | split; assumption]]].
   - apply coherent_S. rewrite entries_require. exact Hc4.
-  - cbn [fsyn with_require with_syn]. destruct Hbi2 as [B1 B2]. split.
+  - destruct Hbi2 as [B1 B2]. split.
     + rewrite Hb4, Hb3. exact B1.
     + rewrite Hb4, Hb3, Hn4, Hn3. exact B2.
+Qed.
+
+Theorem set_require_separate_indirect_pre_sort f l f' :
+  distinct_paths (map req_path l) = true -> Coherent f -> BlockIdsOk (fsyn f) -> RequireSettable f ->
+  set_require_separate_indirect f l = Some f' ->
+  exists g, f' = sort_blocks g /\ Coherent g /\ BlockIdsOk (fsyn g).
+Proof.
+  intros Hd Hc Hbi Hset H.
+  destruct (sri_steps_exist f l f' H) as [s1 [dbid [di [ii [s2 [ibid [s3 [rs [have [s4 [rs' St]]]]]]]]]]].
+  destruct (sri_pre_sort_explicit _ _ _ _ _ _ _ _ _ _ _ _ _ _ Hd Hc Hbi Hset St) as [A [Bq _]].
+  exists (with_require (with_syn f s4) rs'). split; [apply St | split; [exact A | exact Bq]].
 Qed.
 
 Theorem set_require_separate_indirect_coherent f l f' :
